@@ -1,19 +1,232 @@
-/- T2N.Spec.SpellIt — STUB (to be replaced by the specification of it spellings) -/
+/-
+  T2N.Spec.SpellIt — Italian spellings: cardinals below 10^12 with their accepted variants,
+  ordinals (four inflections), decimals, digit dictation. Written from Italian orthography
+  (Treccani: `centouno (o centuno; anche cento uno e cento e uno)`, `ventitré`, `centottanta`,
+  `centunesimo`, `centodecimo`) and the repository's tests (see DESIGN.md §3 C01, C04, C05).
+
+  Standard orthography (`v = fun _ => 0`): every number below one million is ONE word
+  (`duemilatrecentoquarantacinque`); `milione/milioni`, `miliardo/miliardi` are separate words
+  (`un milione`, `due milioni duecentomila`). `mille` (1000) vs `Xmila`. Mandatory elisions: tens + `uno`/`otto`
+  (`ventuno`, `ventotto`; never split: the tests reject `venti uno`, `venti otto`, `novantaotto`);
+  `mille`/`mila` never elide (`milleotto`, `duemilaottanta`).
+
+  Variant axes (independent per group / choice point; g = 0 units … 3 = 10^9):
+    * compound vs split words, `pick v (cp g 0) 4` = split level of a word; the word below one million
+      (groups 1 and 0 together) reads (cp 0 0), the multiplier of `milioni` (cp 2 0), of `miliardi` (cp 3 0).
+      A word is split at ALL its boundaries of rank ≤ level, never partially:
+        level 0  one word                     `duemilatrecentoquarantacinque`
+        level 1  after `mila`/`mille`         `duemila trecentoquarantacinque`   (test: `…cinquemila duecento`)
+        level 2  + after `cento`              `duemila trecento quarantacinque`  (Treccani `cento uno`)
+        level 3  + between tens and units     `duemila trecento quaranta cinque` (test: `novanta cinque`)
+      `mila` is a suffix: it is detached exactly when its multiplier is itself written in several words
+      (`trecento quarantacinque mila`; the hybrid `trecento quarantacinquemila` would read 300, 45000).
+      `trecento`, `duemila` themselves are never cut (`tre cento`, `due mila` are not included).
+      Split forms carry no elision (`cento uno`, `cento ottanta`) and a detached `tre` no accent.
+    * optional `e` after a scale word when something follows:
+        after `miliardo/miliardi` (cp 3 1), after `milione/milioni` (cp 2 1),
+        after `mille`/`…mila` when the word is split (level ≥ 1) (cp 1 1)        (test: `tremila e seicento`)
+        after `cento` of the units group when split (level ≥ 2) (cp 0 2)         (test: `cento e uno`)
+      (not after the `cento` of a multiplier: `cento e due mila` is ambiguous).
+    * accent of a compound ending in `tre`: `ventitré` | `ventitre` (cp g 3)     (test: `trentatré`)
+    * elision of `cento` (cp g 4): before `ottanta…`  `(due)centottanta` (std) | `(due)centoottanta`;
+      before `otto`  `(due)centootto` (std) | `(due)centotto`; before `uno`  `centouno` (std) | `centuno`
+      (bare `cento` only: `duecentuno` … `novecentuno` are not dictionary forms and the library rejects
+      them, so the `uno` elision was removed for `Xcento`, X ≥ 2; `millecentuno`, `centunomila` remain).
+    * apocope `ventuno milioni` | `ventun milioni` (tens + uno before milioni/miliardi) (cp g 5), g = 2, 3
+      (test: `ventun`). `un milione`, `un miliardo` are the only forms for one.
+    * scale words: `milione`/`miliardo` after `un`, `milioni`/`miliardi` otherwise (grammatical, no choice).
+
+  Ordinals (1 … 10^6): `primo … decimo`; above ten the one-word cardinal without its final vowel + `-esimo`
+  (`undicesimo`, `ventunesimo`), keeping the vowel of `tre`, `sei` (`ventitreesimo`, `ventiseiesimo`);
+  `…mila` ↦ `…millesimo` (`duemillesimo`), `mille` ↦ `millesimo`, final `dieci` ↦ `decimo` (`centodecimo`),
+  `milionesimo`. Always one word. The `cento` elision axis (cp 0 4) applies (`centounesimo` | `centunesimo`).
+  Inflections: 0 `-o` "º", 1 `-a` "ª", 2 `-i` "º", 3 `-e` "ª". Not spelled: rank 2 masculine plural
+  (`secondi` is the time unit: deliberate exclusion in the tests).
+
+  Known divergences of the library on spellings kept here (findings, not removed):
+    * `…centottantuno`, `…centottantotto` (181, 188, 281, …: standard elided forms) are rejected (NaN),
+      also inside ordinals (`centottantunesimo`); `centottantadue` etc. are accepted.
+    * `centunesimo/a/i/e` (and `millecentunesimo` …) is rejected (NaN); `centounesimo` is accepted.
+    * `…decimo` in a compound (`centodecimo`, `milledecimo`, rank ≡ 10 mod 100 above ten) is converted
+      without the ordinal marker (`110` instead of `110º`).
+
+  Fractions: after `virgola` every leading zero is said `zero`, the remaining digits are read as one cardinal
+  (with its own variant choices: choice points shifted by 64).
+-/
 import T2N.Spec.Basic
+
+namespace T2N.Spec.It
+
+def unitWords : List Word := [w!"zero", w!"uno", w!"due", w!"tre", w!"quattro", w!"cinque", w!"sei", w!"sette",
+  w!"otto", w!"nove", w!"dieci", w!"undici", w!"dodici", w!"tredici", w!"quattordici", w!"quindici", w!"sedici",
+  w!"diciassette", w!"diciotto", w!"diciannove"]
+
+def tensWords : List Word := [[], [], w!"venti", w!"trenta", w!"quaranta", w!"cinquanta", w!"sessanta",
+  w!"settanta", w!"ottanta", w!"novanta"]
+
+def unitWord (n : Nat) : Word := unitWords.getD n []
+
+def tensWord (t : Nat) : Word := tensWords.getD t []
+
+def conj : Word := w!"e"
+
+/-- 1..99 at split level `lvl` -/
+def below100 (lvl n : Nat) : List Word :=
+  if n < 20 then [unitWord n]
+  else
+    let t := n / 10
+    let u := n % 10
+    if u == 0 then [tensWord t]
+    else if u == 1 || u == 8 then [(tensWord t).dropLast ++ unitWord u]     -- ventuno, ventotto
+    else if lvl ≥ 3 then [tensWord t, unitWord u]
+    else [tensWord t ++ unitWord u]
+
+def hundredWord (h : Nat) : Word := if h == 1 then w!"cento" else unitWord h ++ w!"cento"
+
+/-- `…cento` glued to the following word of the same group, with the elision choice -/
+def glueCento (v : Var) (g : Nat) (c w : Word) : Word :=
+  let alt := flag v (cp g 4)
+  let elide : Bool :=
+    if w!"ottant".isPrefixOf w then !alt
+    else if w == w!"otto" then alt
+    else if w == w!"uno" then alt && c == w!"cento"
+    else false
+  (if elide then c.dropLast else c) ++ w
+
+/-- 1..999 at split level `lvl` -/
+def group (v : Var) (g lvl n : Nat) : List Word :=
+  let h := n / 100
+  let r := n % 100
+  if h == 0 then below100 lvl r
+  else if r == 0 then [hundredWord h]
+  else if lvl ≥ 2 then
+    [hundredWord h] ++ (if g == 0 && flag v (cp 0 2) then [conj] else []) ++ below100 lvl r
+  else
+    match below100 lvl r with
+    | w :: rest => glueCento v g (hundredWord h) w :: rest
+    | [] => [hundredWord h]
+
+/-- a compound ending in `tre` takes the accent (unless the variant drops it) -/
+def accent (v : Var) (g : Nat) (w : Word) : Word :=
+  if w.length > 3 && w!"tre".isSuffixOf w && !flag v (cp g 3) then w.dropLast ++ ['é'] else w
+
+/-- thousands 1..999 with `mille` / `mila` (accent not yet applied) -/
+def thousands (v : Var) (lvl n : Nat) : List Word :=
+  if n == 1 then [w!"mille"]
+  else
+    match group v 1 lvl n with
+    | [w] => [w ++ w!"mila"]
+    | ws => ws ++ [w!"mila"]
+
+/-- 1..999999: one word in standard orthography -/
+def belowMillion (v : Var) (n : Nat) : List Word :=
+  let lvl := pick v (cp 0 0) 4
+  let g1 := n / 1000
+  let g0 := n % 1000
+  let p1 := thousands v lvl g1
+  let p0 := group v 0 lvl g0
+  if g1 == 0 then p0.map (accent v 0)
+  else if g0 == 0 then p1.map (accent v 1)
+  else if lvl == 0 then
+    match p1, p0 with
+    | [w1], [w0] => [accent v 0 (w1 ++ w0)]
+    | _, _ => p1 ++ p0
+  else
+    p1.map (accent v 1) ++ (if flag v (cp 1 1) then [conj] else []) ++ p0.map (accent v 0)
+
+def scaleWord (g : Nat) (plural : Bool) : Word :=
+  match g, plural with
+  | 2, false => w!"milione" | 2, true => w!"milioni"
+  | _, false => w!"miliardo" | _, true => w!"miliardi"
+
+/-- group `g ≥ 2` (0..999) followed by its scale word -/
+def scaled (v : Var) (g n : Nat) : List Word :=
+  if n == 0 then []
+  else if n == 1 then [w!"un", scaleWord g false]
+  else
+    let lvl := pick v (cp g 0) 4
+    let ws := group v g lvl n
+    let apo := n % 10 == 1 && n % 100 > 20 && flag v (cp g 5)
+    let ws := if apo then (match ws.reverse with | l :: rest => (l.dropLast :: rest).reverse | [] => ws) else ws
+    ws.map (accent v g) ++ [scaleWord g true]
+
+/-- cardinal, `n < 10^12` -/
+def cardinal (v : Var) (n : Nat) : List Word :=
+  if n == 0 then [w!"zero"]
+  else
+    let g3 := n / 1000000000 % 1000
+    let g2 := n / 1000000 % 1000
+    let lo := n % 1000000
+    let p3 := scaled v 3 g3
+    let p2 := scaled v 2 g2
+    let p0 := if lo == 0 then [] else belowMillion v lo
+    let l3 : List Word := if g3 != 0 && (g2 != 0 || lo != 0) && flag v (cp 3 1) then [conj] else []
+    let l2 : List Word := if g2 != 0 && lo != 0 && flag v (cp 2 1) then [conj] else []
+    p3 ++ l3 ++ p2 ++ l2 ++ p0
+
+/-! ### ordinals -/
+
+def ordUnitStems : List Word := [[], w!"prim", w!"second", w!"terz", w!"quart", w!"quint", w!"sest",
+  w!"settim", w!"ottav", w!"non", w!"decim"]
+
+/-- the ordinal without its inflectional vowel, ranks 1..10^6 -/
+def ordStem (v : Var) (n : Nat) : Word :=
+  if n == 1000000 then w!"milionesim"
+  else if n ≤ 10 then ordUnitStems.getD n []
+  else
+    -- the one-word cardinal, without accent, with the `cento` elision choice of `v`
+    let v0 : Var := fun i => if i % 16 == 4 then v i else if i % 16 == 3 then 1 else 0
+    let w : Word := match belowMillion v0 n with | [w] => w | _ => []
+    let r := n % 100
+    if n == 1000 then w!"millesim"
+    else if n % 1000 == 0 then w.dropLast.dropLast.dropLast.dropLast ++ w!"millesim"          -- …mila
+    else if r == 10 then w.dropLast.dropLast.dropLast.dropLast.dropLast ++ w!"decim"          -- …dieci
+    else if (n % 10 == 3 || n % 10 == 6) && r != 13 && r != 16 then w ++ w!"esim"             -- …treesimo, …seiesimo
+    else w.dropLast ++ w!"esim"
+
+def inflVowel (i : Nat) : Char := match i with | 0 => 'o' | 1 => 'a' | 2 => 'i' | _ => 'e'
+
+def ordinalMarker (i : Nat) : Word := if i == 0 || i == 2 then ['º'] else ['ª']
+
+def ordinal (v : Var) (n i : Nat) : Option (List Word × Word) :=
+  if n == 0 || n > 1000000 || i ≥ 4 then none
+  else if n == 2 && i == 2 then none                     -- `secondi`: the time unit
+  else some ([ordStem v n ++ [inflVowel i]], ordinalMarker i)
+
+/-! ### decimals and dictation -/
+
+def sepWord : Word := w!"virgola"
+def decMark : Char := ','
+
+/-- leading zeros one by one, the rest as one cardinal -/
+def fraction (v : Var) (ds : List Nat) : List Word :=
+  let zs := ds.takeWhile (· == 0)
+  let rest := ds.dropWhile (· == 0)
+  let v' : Var := fun i => v (i + 64)
+  zs.map (fun _ => w!"zero") ++
+    (if rest.isEmpty then []
+     else if rest.length ≤ 12 then cardinal v' (rest.foldl (fun a d => 10 * a + d) 0)
+     else rest.map unitWord)
+
+def zeroWord : Word := w!"zero"
+
+def digitWord (d : Nat) : Word := unitWord d
+
+end T2N.Spec.It
 
 namespace T2N.Spec.It
 
 def speller : Speller where
   code := "it"
-  cardinal := fun _ _ => []
-  nInfl := 0
-  ordMax := 0
-  ordinal := fun _ _ _ => none
-  sepWord := []
-  decMark := ','
-  fraction := fun _ _ => []
-  zeroWord := []
-  digitWord := fun _ => []
-  conj := []
+  cardinal := cardinal
+  nInfl := 4
+  ordMax := 1000000
+  ordinal := ordinal
+  sepWord := sepWord
+  decMark := decMark
+  fraction := fraction
+  zeroWord := zeroWord
+  digitWord := digitWord
+  conj := conj
 
 end T2N.Spec.It
